@@ -1280,12 +1280,22 @@ func runC12(c *harness.Ctx) {
 		}
 		guard(R, "C12", "roundtrip", func() interface{} { return node.BuildData(fn, args) }, func() {
 			b := txDataBuilder.NewBuilder().Func(fn)
-			for _, a := range args {
+			// a second, independent builder is filled alongside (an inner message prepared while the
+			// outer one is still open): builders share nothing
+			other := txDataBuilder.NewBuilder().Func("inner")
+			var otherArgs [][]byte
+			for k, a := range args {
 				b.Bytes(a)
+				oa := []byte{0x5a, byte(k)}
+				other.Bytes(oa)
+				otherArgs = append(otherArgs, oa)
 			}
 			s := b.ToString()
 			if s != node.BuildData(fn, args) {
 				R.Violate("C12:builder-format", fmt.Sprintf("builder produced %q, format says %q", s, node.BuildData(fn, args)), s)
+			}
+			if os := other.ToString(); os != node.BuildData("inner", otherArgs) {
+				R.Violate("C12:builder-format", fmt.Sprintf("a second builder filled alongside produced %q, format says %q", os, node.BuildData("inner", otherArgs)), os)
 			}
 			for _, variant := range []string{s, upperHex(s, fn)} {
 				f, pa, err := cp.ParseData(variant)
@@ -1457,7 +1467,25 @@ func runC12(c *harness.Ctx) {
 	values := []*big.Int{big.NewInt(0), big.NewInt(1), big.NewInt(255), gen.Pow2(63), gen.Pow2(64), new(big.Int).Add(gen.Pow2(64), big.NewInt(1)), gen.Pow2(200)}
 	calls := [][][]byte{nil, {[]byte("f")}, {[]byte("f"), {}}, {[]byte("fn"), []byte("a1"), {0}, {}}}
 	nwf := 0
+	// sender / receiver pairs: unrelated addresses, and different addresses that are "almost equal" in
+	// ways a comparison other than byte equality would confuse (letter case, bytes that are not
+	// valid UTF-8, only the shard byte differing, only the first byte differing, one all zero)
+	like := func(mod func(a []byte)) [2][]byte {
+		a := bytes.Repeat([]byte{'A'}, 32)
+		b := append([]byte{}, a...)
+		mod(b)
+		return [2][]byte{a, b}
+	}
+	addrPairs := [][2][]byte{{addrA, addrB}, {addrA, addrB},
+		like(func(b []byte) { b[31] = 'a' }), like(func(b []byte) { b[0] = 'a' }), like(func(b []byte) { b[31] = 'B' }),
+		{bytes.Repeat([]byte{0x80}, 32), append(bytes.Repeat([]byte{0x80}, 31), 0x81)}, {bytes.Repeat([]byte{0xff}, 32), append(bytes.Repeat([]byte{0xff}, 31), 0xfe)},
+		{append(bytes.Repeat([]byte{0xC3}, 31), 0x89), append(bytes.Repeat([]byte{0xC3}, 31), 0xA9)}, // É / é in UTF-8 at the end
+		{make([]byte, 32), append(make([]byte, 31), 1)}, {gen.UserAddr(3, 0), gen.UserAddr(3, 1)}}
 	for wi := 0; wi < c.Scale(6000, 60000)/c.Batches; wi++ {
+		addrA, addrB := addrPairs[wi%len(addrPairs)][0], addrPairs[wi%len(addrPairs)][1]
+		if wi%len(addrPairs) >= 2 {
+			R.Cover("C12/xfer-parser-lookalike-addresses")
+		}
 		fn := []string{FTransfer, FNFTXfer, FMulti}[r.Intn(3)]
 		atSender := r.Bool()
 		call := calls[r.Intn(len(calls))]
